@@ -159,9 +159,10 @@ pub fn exec_once(c: &Case) -> CaseResult {
             }
         }
     };
-    let _tap = c.tap.as_ref().map(|(up, down, pause)| {
+    let tap_listener = cl.tap_listener.take();
+    let _tap = c.tap.as_ref().zip(tap_listener).map(|((up, down, pause), l)| {
         Tap::start(
-            cl.link_port,
+            l,
             cl.server_port,
             Policy {
                 up: up.iter().map(|x| *x as usize).collect(),
@@ -265,8 +266,102 @@ pub fn sample<T: std::fmt::Debug>(s: &BoxedStrategy<T>, seed: u64, salt: u64) ->
     s.new_tree(&mut runner).expect("strategy").current()
 }
 
+
+// ---------------------------------------------------------------------------------------------- cold one-shot uploads
+
+#[derive(Clone, Debug, Serialize, Deserialize)]
+pub struct ColdCase {
+    pub spec: Spec,
+    /// (handshake, bytes, delay before the target starts reading in ms) per concurrent flow
+    pub uploads: Vec<(Hs, u32, u16)>,
+}
+
+pub struct ColdUpload;
+
+fn cold_once(c: &ColdCase) -> (Option<FlowFail>, Vec<String>) {
+    let mut labels = vec![format!("combo:{}/{}", c.spec.proto.short(), c.spec.transport.name())];
+    let mut cl = match Cluster::start(&c.spec) {
+        Ok(cl) => cl,
+        Err(e) => return (Some(FlowFail { soft: true, sig: "start-up".into(), msg: format!("cluster for {} did not start: {}", c.spec.short(), e) }), labels),
+    };
+    let port = cl.client_port;
+    let mut fails = vec![];
+    std::thread::scope(|sc| {
+        let hs: Vec<_> = c.uploads.iter().enumerate().map(|(i, (h, n, d))| sc.spawn(move || crate::sys::flow::cold_upload(port, *h, *n, 3000 + i as u64, *d))).collect();
+        for h in hs {
+            if let Ok(Err(f)) = h.join() {
+                fails.push(f);
+            }
+        }
+    });
+    for (_, n, d) in &c.uploads {
+        labels.push(format!("upload:{}", crate::gen::size_class(*n as usize)));
+        if *d > 0 {
+            labels.push("slow-target".into());
+        }
+    }
+    let mut fail = fails.iter().find(|f| !f.soft).cloned().or_else(|| fails.first().cloned());
+    if let Err(h) = cl.health() {
+        fail = Some(FlowFail { soft: false, sig: "process-or-task-died".into(), msg: h });
+    }
+    if let Some(f) = &mut fail {
+        f.msg = format!("{} [{}; uploads={:?}]\n{}", f.msg, c.spec.short(), c.uploads, crate::ev::truncate(&cl.logs(8), 1500));
+    }
+    (fail, labels)
+}
+
+impl SubCheck for ColdUpload {
+    type Case = ColdCase;
+    fn name(&self) -> &'static str {
+        "cold-upload"
+    }
+    fn strategy(&self, tier: Tier) -> BoxedStrategy<ColdCase> {
+        let max = if tier == Tier::Thorough { 6 * 1024 * 1024 } else { 1_500_000u32 };
+        let size = prop_oneof![2 => 1u32..70_000, 3 => 70_000u32..=max, 1 => Just(1_048_576u32)];
+        let up = (hs_strategy(), size, prop_oneof![2 => Just(0u16), 1 => 1u16..400]);
+        (spec_strategy(None), proptest::collection::vec(up, 1..=8)).prop_map(|(spec, uploads)| ColdCase { spec, uploads }).boxed()
+    }
+    fn exec(&self, c: &ColdCase) -> Outcome {
+        let (mut fail, mut labels) = cold_once(c);
+        let mut reruns = 0;
+        while let Some(f) = &fail {
+            if !f.soft || reruns >= 2 || rt::failed_already() {
+                break;
+            }
+            reruns += 1;
+            let (f2, l2) = cold_once(c);
+            labels = l2;
+            if f2.is_none() {
+                labels.push("deadline-miss-not-confirmed".into());
+            }
+            fail = f2;
+        }
+        let mut out = Outcome::new();
+        out.weight = c.uploads.len() as u64;
+        for l in labels {
+            out.label(l);
+        }
+        if c.uploads.iter().any(|(_, n, _)| *n > 65536) {
+            out.nontrivial(format!("{}|{:?}", c.spec.short(), c.uploads.iter().map(|(h, n, d)| (h.name(), crate::gen::size_class(*n as usize), *d > 0)).collect::<Vec<_>>()));
+        }
+        if let Some(f) = fail {
+            out.fail(format!("cold-upload/{}/{}", c.spec.transport.name(), f.sig), f.msg);
+        }
+        out
+    }
+    fn workers(&self) -> usize {
+        (rt::threads() / 2).clamp(1, 8)
+    }
+    fn max_shrink_iters(&self) -> u32 {
+        24
+    }
+    fn confirm_runs(&self) -> u32 {
+        6
+    }
+}
+
 pub fn subs() -> Vec<Box<dyn DynSub>> {
-    vec![Box::new(Relay)]
+    vec![Box::new(Relay), Box::new(ColdUpload)]
 }
 
 pub fn run(ctx: &mut PropCtx) {
@@ -302,4 +397,15 @@ pub fn run(ctx: &mut PropCtx) {
     rt::run_list(ctx, &Relay, "matrix", cases);
     ctx.note("matrix", "every (protocol, cipher, transport) combination of the README table is exercised in every run; scripts, handshake kinds, user tables and worker counts are generated");
     rt::run_sub(ctx, &Relay, ctx.tier.pick(160, 2500));
+    // one-shot uploads without any warm-up: handshake, write, close at once
+    let mut cold = vec![];
+    for (i, combo) in combos.iter().enumerate() {
+        let s = ColdUpload.strategy(ctx.tier);
+        let mut c: ColdCase = sample(&s, ctx.seed ^ 0xc01d, i as u64);
+        c.spec.proto = combo.0;
+        c.spec.transport = combo.1;
+        cold.push(c);
+    }
+    rt::run_list(ctx, &ColdUpload, "cold-upload-matrix", cold);
+    rt::run_sub(ctx, &ColdUpload, ctx.tier.pick(60, 1000));
 }
